@@ -246,6 +246,7 @@ def run_shard(spec, rec):
         for v in rec.violations:
             v['finding'] = spec['sacrificial']
             v['reentry_action'] = spec['reentry_action']
+            v['reentry_trigger'] = spec['reentry_trigger']
         return
     if spec.get('reentry'):
         for ci in range(spec['cases']):
